@@ -633,6 +633,42 @@ pub fn run<C: VCtx>(ctx: &C, op: &str, a: &[Value]) -> Value {
                 [schnorr_out(&s1), schnorr_out(&s2)]
             ])
         }
+        // OS entropy: exponent transport twice (each call and, on ristretto, each half must use its own randomness)
+        "fresh_encrypt_exp" => {
+            let mk = || PublicKey::from_element(&C::e_in(&a[1]), ctx);
+            let r1 = ctx.encrypt_exp(&C::x_in(&a[0]), mk());
+            let r2 = ctx.encrypt_exp(&C::x_in(&a[0]), mk());
+            match (r1, r2) {
+                (Ok(b1), Ok(b2)) => json!([hex_out(&b1), hex_out(&b2)]),
+                _ => json!("err"),
+            }
+        }
+        // OS entropy: every kind of sigma proof twice by the same secret, from one Zkp value and from fresh ones;
+        // returns the commitments in the order schnorr, schnorr, cp, cp, popk, popk, dec, dec, schnorr(new Zkp), cp(new Zkp)
+        "fresh_sigma" => {
+            let x = C::x_in(&a[0]);
+            let y = ctx.gmod_pow(&x);
+            let g2 = C::e_in(&a[1]);
+            let y2 = ctx.emod_pow(&g2, &x);
+            let mut coms: Vec<Value> = vec![];
+            for _ in 0..2 {
+                coms.push(C::e_out(&zkp.schnorr_prove(&x, &y, None, b"l").unwrap().commitment));
+            }
+            for _ in 0..2 {
+                coms.push(C::e_out(&zkp.cp_prove(&x, &y, &y2, None, &g2, b"l").unwrap().commitment1));
+            }
+            for _ in 0..2 {
+                coms.push(C::e_out(&zkp.encryption_popk(&x, &g2, &y, b"l").unwrap().commitment));
+            }
+            for _ in 0..2 {
+                coms.push(C::e_out(&zkp.decryption_proof(&x, &y, &y2, &g2, &g2, b"l").unwrap().commitment1));
+            }
+            let z2 = Zkp::new(ctx);
+            coms.push(C::e_out(&z2.schnorr_prove(&x, &y, None, b"l").unwrap().commitment));
+            let z3 = Zkp::new(ctx);
+            coms.push(C::e_out(&z3.cp_prove(&x, &y, &y2, None, &g2, b"l").unwrap().commitment1));
+            json!(coms)
+        }
         "fresh_rnd_exp" => {
             let n = usize_in(&a[0]);
             xs_out::<C>(&(0..n).map(|_| ctx.rnd_exp()).collect::<Vec<_>>())
